@@ -245,11 +245,13 @@ def _child_session(rec):
                 P = P + n
             carried["P"] = P
             carried["from"] = f"fault:{kind}"
+            if kind == "asym":
+                carried["asym"] = True  # stays so until a successful solve replaces the carried matrix
         elif op["op"] == "SOLVE":
             c = op["cfg"]
             start = op["start"]
             P0 = None if start == "cold" else convert(carried["P"], carried["uhf"], c["uhf"])
-            entry = {"op": op, "geom": geom_id, "start": start if P0 is not None else "cold", "from": carried["from"] if P0 is not None else None}
+            entry = {"op": op, "geom": geom_id, "start": start if P0 is not None else "cold", "from": carried["from"] if P0 is not None else None, "start_asymmetric": bool(P0 is not None and carried.get("asym"))}
             try:
                 mol, es = solve(c, P0.clone() if P0 is not None else None, op.get("cap", 1000))
             except Nontermination as e:
@@ -288,7 +290,7 @@ def _child_session(rec):
                         refs[geom_id] = {"exc": str(e)[:100]}
                 entry["ref"] = refs[geom_id]
             if not op.get("keep_carried"):
-                carried.update(P=mol.dm.detach().clone(), uhf=bool(c["uhf"]), geom=geom_id, from_=None)
+                carried.update(P=mol.dm.detach().clone(), uhf=bool(c["uhf"]), geom=geom_id, from_=None, asym=False)
                 carried["from"] = "previous-solve"
                 history.append((mol.dm.detach().clone(), bool(c["uhf"])))
             out.append(entry)
